@@ -164,6 +164,7 @@ def outToJson : Out → Json
   | .contained e => Json.mkObj [("k", "contained"), ("e", e.name)]
   | .result r => Json.mkObj [("k", "ret"), ("data", dataToJson r)]
   | .raised e => Json.mkObj [("k", "exc"), ("e", cerrName e)]
+  | .effort => Json.mkObj [("k", "effort")]
 
 def snapshot (c : Cli) : Json :=
   Json.mkObj [
@@ -172,7 +173,8 @@ def snapshot (c : Cli) : Json :=
     ("callbacks", Json.arr (c.cbs.map (fun e => Json.arr #[strToJson e.1, Json.num e.2.1])).toArray),
     ("binbuf", Json.bool c.binbuf.isSome),
     ("sid", optStrToJson c.sid),
-    ("eio", match c.eio with | .connected => "connected" | .disconnected => "disconnected")]
+    ("eio", match c.eio with | .connected => "connected" | .disconnected => "disconnected"),
+    ("effort", Json.bool c.effort)]
 
 def noteToJson : Note → Json
   | .accepted n => Json.arr #["accepted", strToJson n]
@@ -183,7 +185,7 @@ def step (s : Option St) (j : Json) : Except String (Option St × Json) :=
   match j.getObjVal? "cfg" with
   | .ok cj => do
     let cfg ← cfgOfJson cj
-    pure (some { cfg := cfg, cli := init }, Json.mkObj [("ok", Json.bool true)])
+    pure (some { cfg := cfg, cli := initR (boolOf cj "reconnection") }, Json.mkObj [("ok", Json.bool true)])
   | .error _ =>
     match s with
     | none => throw "no cfg line yet"
